@@ -142,6 +142,7 @@ func (r *runner) run(ctx context.Context, isStream bool, input any, opts ...Opti
 	// Initialize channel and task managers.
 	cm := r.initChannelManager(isStream)
 	tm := r.initTaskManager(runWrapper, opts...)
+	ctx = tm.enterRun(ctx)
 	maxSteps := r.options.maxRunSteps
 
 	// an option designated to a node is meant for that node (a nested graph), not for this graph:
@@ -331,7 +332,7 @@ func (r *runner) run(ctx context.Context, isStream bool, input any, opts ...Opti
 		var interruptBeforeNodes []string
 		var interruptAfterNodes []string
 
-		err = r.resolveInterruptCompletedTasks(subGraphInterrupts, &interruptRerunNodes, &interruptAfterNodes, completedTasks)
+		err = r.resolveInterruptCompletedTasks(tm, subGraphInterrupts, &interruptRerunNodes, &interruptAfterNodes, completedTasks)
 		if err != nil {
 			return nil, err // err has been wrapped
 		}
@@ -341,7 +342,7 @@ func (r *runner) run(ctx context.Context, isStream bool, input any, opts ...Opti
 			if err != nil {
 				return nil, newGraphRunError(fmt.Errorf("failed to wait all tasks: %w", err))
 			}
-			err = r.resolveInterruptCompletedTasks(subGraphInterrupts, &interruptRerunNodes, &interruptAfterNodes, cpt)
+			err = r.resolveInterruptCompletedTasks(tm, subGraphInterrupts, &interruptRerunNodes, &interruptAfterNodes, cpt)
 			if err != nil {
 				return nil, err // err has been wrapped
 			}
@@ -388,7 +389,7 @@ func (r *runner) run(ctx context.Context, isStream bool, input any, opts ...Opti
 			if err != nil {
 				return nil, fmt.Errorf("failed to wait all tasks: %w", err)
 			}
-			err = r.resolveInterruptCompletedTasks(subGraphInterrupts, &interruptRerunNodes, &interruptAfterNodes, newCompletedTasks)
+			err = r.resolveInterruptCompletedTasks(tm, subGraphInterrupts, &interruptRerunNodes, &interruptAfterNodes, newCompletedTasks)
 			if err != nil {
 				return nil, err // err has been wrapped
 			}
@@ -430,7 +431,7 @@ func (r *runner) run(ctx context.Context, isStream bool, input any, opts ...Opti
 	}
 }
 
-func (r *runner) resolveInterruptCompletedTasks(subGraphInterrupts map[string]*subGraphInterruptError, interruptRerunNodes, interruptAfterNodes *[]string, completedTasks []*task) (err error) {
+func (r *runner) resolveInterruptCompletedTasks(tm *taskManager, subGraphInterrupts map[string]*subGraphInterruptError, interruptRerunNodes, interruptAfterNodes *[]string, completedTasks []*task) (err error) {
 	for i := 0; i < len(completedTasks); i++ {
 		if completedTasks[i].err != nil {
 			if info := isSubGraphInterrupt(completedTasks[i].err); info != nil {
@@ -442,7 +443,7 @@ func (r *runner) resolveInterruptCompletedTasks(subGraphInterrupts map[string]*s
 			} else if completedTasks[i].errNamed {
 				return completedTasks[i].err
 			} else {
-				return wrapGraphNodeError(completedTasks[i].nodeKey, completedTasks[i].err)
+				return tm.nodeError(completedTasks[i].nodeKey, completedTasks[i].err, false)
 			}
 		}
 		for _, key := range r.interruptAfterNodes {
